@@ -478,12 +478,13 @@ static void p2d_point (const pt_t *p)
 			pt_t q = *p; unsigned char **src = malloc (sizeof (void *) * (size_t) (k ? k : 1)), **pri = malloc (sizeof (void *) * (size_t) (k ? k : 1));
 			q.codec = 5; q.len = len;
 			for (i = 0; i < k; i++) { src[i] = malloc ((size_t) len); pri[i] = malloc ((size_t) len); fill_source (&q, i, src[i]); memcpy (pri[i], src[i], (size_t) len); }
-			for (mode = 0; mode < 2; mode++) {
+			for (mode = 0; mode < 3; mode++) {	/* 0: application buffers, increasing; 1: NULL slots; 2: decreasing order, every symbol built twice into its (then used) buffer */
 				void **tab = calloc ((size_t) n, sizeof (void *)); unsigned char **mine = calloc ((size_t) n, sizeof (void *));
 				int failed = 0, bb;
 				for (i = 0; i < k; i++) tab[i] = src[i];
-				for (i = k; i < n; i++) if (mode == 0) { mine[i] = malloc ((size_t) len); memset (mine[i], 0x5A, (size_t) len); tab[i] = mine[i]; }
-				for (j = k; j < n; j++) {
+				for (i = k; i < n; i++) if (mode != 1) { mine[i] = malloc ((size_t) len); memset (mine[i], 0x5A, (size_t) len); tab[i] = mine[i]; }
+				if (mode == 2) for (j = n - 1; j >= k; j--) { int rep; for (rep = 0; rep < 2; rep++) if (of_build_repair_symbol (s, tab, (UINT32) j) != OF_STATUS_OK || tab[j] != mine[j]) { viol ("C16", "call=build|kind=failed|slot=buffer|order=decreasing-twice"); failed = 1; break; } vf_stat_add (st_trans, 2); if (failed) break; }
+				for (j = k; j < n && mode != 2; j++) {
 					snprintf (vf_slot (), VF_SLOT_LEN, "%s build esi=%d slot=%s", g_case, j, mode ? "null" : "buffer");
 					if (of_build_repair_symbol (s, tab, (UINT32) j) != OF_STATUS_OK || !tab[j]) { snprintf (sig, sizeof sig, "call=build|kind=failed|slot=%s", mode ? "null" : "buffer"); viol ("C16", sig); failed = 1; break; }
 					vf_stat_add (st_trans, 1);
